@@ -55,6 +55,23 @@ def run_feedforward(case, ctx):
         kwargs['measurements'] = meas
     if not case['with_altitude'] or case['sub'] % 5:
         kwargs['with_altitude'] = case['with_altitude']
+    # equally indexed pairs come in more than one guise: the index name may differ (or be missing), and whole-second stamps
+    # may be stored as integers in one or both tables
+    lay = case['sub'] % 4
+    whole = bool(case.get('whole_seconds')) and case['sampling'] == 'uniform'
+    if lay == 1:
+        computed = computed.copy()
+        computed.index = computed.index.rename(None)
+    elif lay == 2:
+        nominal = nominal.copy()
+        nominal.index = nominal.index.rename('t')
+    if whole and case['sub'] % 3 != 0:
+        nominal, computed = nominal.copy(), computed.copy()
+        nominal.index = nominal.index.astype(np.int64)
+        if case['sub'] % 3 == 1:
+            computed.index = computed.index.astype(np.int64)
+        ctx.label('integer_index')
+    ctx.label(f'index_names={["same", "one_unnamed", "different", "same"][lay]}')
     snap_n, snap_c = nominal.copy(), computed.copy()
     budget = len(nominal) + (sc.n_epochs_inside if case['meas_mode'] == 'list' else 0) + 2
     res = ctx.sut(sched.run_with_budget, budget, filters.run_feedforward_filter,
